@@ -59,7 +59,16 @@ FloatToks == {"%f:" \o ToString(h) : h \in HalfPool}     \* the %f rendering of 
 \* Every string of the universe is a token; the tables list the tokens with the attribute, every other
 \* token lacks it.  (MetaMC exports the attributes of every token in use; the harness compares them
 \* with regexp, encoding/json and strconv.)
-BadIds    == {"", "a b", "a.b", "\"ab\"", "\"x\"", "a\"b", "[]", "{}", "{", "(", "[a", "^a", "."}
+\* Property NAMES are a value class of their own: the meta-schema keys Object.properties by a string of at
+\* least one byte - not by an identifier -, so a name may contain anything.  The partition (one token per
+\* class) lives here; MetaMC and the random generator of the harness draw property names from it.
+LongName == "nnnnnnnnnnnnnnnnnnnnnnnnnnnnnnnnnnnnnnnnnnnnnnnnnnnnnnnnnnnnnnnnnnnnnnnnnnnnnnnnnnnnnnnnnnnnnnnnnnnnnnnnnnnnnnnnnnnnnnnnnnnnnnnnnnnnnnnnnnnnnnnnnnnnnnnnnnnnnnnnnnnnnnnnnnnnnnnnnnnnnnnnnnnnnnnnnnnnnnnnnnnnnnnnnnnnnnnnnnnnnnnnnnnnnnnnnnnnnnnnnnnnnnnnnnnnnnnnnnnnnnnnnnnnnnnnnnnnnnnnnnnnnnnnnnnnnnnnnnnn"        \* 300 bytes: beyond the 255 an identifier may have
+PropNameClass == [ident |-> "p", space |-> "max retries", dot |-> "a.b", dotslash |-> "app.kubernetes.io/name",
+                  dash |-> "x-y", nonascii |-> "é", long |-> LongName, empty |-> ""]
+PropNames   == {PropNameClass[c] : c \in DOMAIN PropNameClass}
+NameOK(s)   == s # ""                    \* what the meta-schema demands of a property name
+BadIds    == {"", "a b", "a.b", "\"ab\"", "\"x\"", "a\"b", "[]", "{}", "{", "(", "[a", "^a", ".",
+              "max retries", "app.kubernetes.io/name", "é", LongName}
                                          \* tokens idType rejects (length 1..255, ^[$@a-zA-Z0-9-_]+$)
 BadPats   == {"(", "[a", "[]"}           \* tokens that do not compile as a regular expression
 TrueWords == {"1", "yes", "y", "on", "true", "enable", "enabled"}
